@@ -62,11 +62,8 @@ def sym(E, p, kf):
     elif ix == "rlmask_ufunc":
         c["mvals"] = [E.bv(f"w{i}", 64) for i in range(n)]
         c["mask"] = [w > 0 for w in c["mvals"]]
-        E.assume(z3.Or(*c["mask"]))
     elif ix in ("mask", "rlmask"):
         c["mask"] = [E.bool(f"m{i}") for i in range(n)]
-        if ix == "rlmask":
-            E.assume(z3.Or(*c["mask"]))
     elif ix == "slice":
         pres = E.choose("pres", [(0, 0), (1, 0), (0, 1), (1, 1)])
         c["a"] = E.int("a", -B, B) if pres[0] else None
